@@ -416,6 +416,183 @@ def requires_table(fn_node, deciders: dict, resolver=None) -> HierarchyVerdict:
     return v
 
 
+# --------------------------------------------------------------------------------------------- (d) the group switch
+
+def _member_read(e):
+    """member name for `X["m"]` / `X.get("m"[, d])`, else None."""
+    if isinstance(e, ast.Subscript) and _const_str(e.slice) is not None:
+        return e.slice.value
+    if isinstance(e, ast.Call) and isinstance(e.func, ast.Attribute) and e.func.attr == "get" and e.args and _const_str(e.args[0]) is not None:
+        return e.args[0].value
+    return None
+
+
+def group_switch_denials(fn_node, resolver=None, member="groupOptional"):
+    """Paths of `group_requires_value` on which the requirement can be denied (a falsy result) although no VALUE of a
+    `groupOptional` member was read and found truthy — the switch of a group is the value of that member, not its presence.
+    Returns (witnesses, number of paths, number of value reads seen)."""
+    def leaf(e):
+        m = _member_read(e)
+        if m == member:
+            return ("B:" + key_of(e), False)
+        if m is not None:
+            return ("M:" + m + ":" + key_of(e), False)
+        return None
+
+    outs = Executor(resolver).run(fn_node)
+    if not any(o.kind == "return" for o in outs):
+        raise AnalysisError("group_requires_value: no returning path")
+    bad, nreads = [], set()
+    for o in outs:
+        if o.kind not in ("return", "fall"):
+            continue
+        rec = _Recorder()
+        for e, _ in o.conds:
+            evalb(e, rec, leaf)
+        if o.value is not None:
+            evalb(o.value, rec, leaf)
+        nreads |= {k for k in rec if k.startswith("B:")}
+        free = [k for k in rec if not k.startswith("B:")]
+        if len(free) > 14:
+            raise AnalysisError("group_requires_value: too many elementary conditions on one path")
+        for bits in itertools.product((False, True), repeat=len(free)):
+            val = dict(zip(free, bits))
+            val.update({k: False for k in rec if k.startswith("B:")})
+            if not all(evalb(e, val, leaf) == pol for e, pol in o.conds):
+                continue
+            r = evalb(o.value, val, leaf) if o.value is not None else False
+            if not r:
+                members = sorted({k.split(":")[1] for k in free if k.startswith("M:")})
+                bad.append((getattr(o.stmt, "lineno", fn_node.lineno), members))
+                break
+    return bad, len(outs), len(nreads)
+
+
+# --------------------------------------------------------------------------------------------- (e) per-pair membership
+
+def _strip_iter(it):
+    """(iterated expression, wrapper) for enumerate(S..) / zip(..) / list(S) / sorted(S) / tuple(S)."""
+    if isinstance(it, ast.Call) and isinstance(it.func, ast.Name) and it.args:
+        if it.func.id == "enumerate":
+            return it.args[0], "enumerate"
+        if it.func.id == "zip":
+            return it, "zip"
+        if it.func.id in ("list", "sorted", "tuple", "iter", "reversed"):
+            return _strip_iter(it.args[0])
+    return it, None
+
+
+def pair_membership_sites(K, methods, table_attr="validations"):
+    """Membership tests (`in` / `not in`) evaluated per element of `self.<table_attr>` (a collection of (a, b) pairs) in the given
+    methods of class K, with the set of pair components {0, 1} each test depends on.  A test that looks at one component of the
+    pair only (the other side being computed once for all pairs) has lost the pairing.
+    Returns [(lineno, components used)]."""
+    from ..normalize import expanded, single_assignments
+
+    sites = []
+
+    def is_table(e, sn):
+        return isinstance(e, ast.Attribute) and e.attr == table_attr and isinstance(e.value, ast.Name) and e.value.id == sn
+
+    def bind(target, how, roles):
+        """roles: name -> 'pair' | frozenset of components"""
+        if isinstance(target, ast.Name):
+            roles[target.id] = how
+        elif isinstance(target, (ast.Tuple, ast.List)) and how == "pair" and len(target.elts) == 2:
+            for i, t in enumerate(target.elts):
+                if isinstance(t, ast.Name):
+                    roles[t.id] = frozenset({i})
+        elif isinstance(target, (ast.Tuple, ast.List)):
+            for t in target.elts:
+                bind(t, how if how != "pair" else frozenset({0, 1}), roles)
+
+    def loop_roles(target, it, sn, fn_node, defs):
+        base, wrap = _strip_iter(expanded(it, fn_node, defs))
+        roles: dict = {}
+        if wrap == "enumerate" and isinstance(target, (ast.Tuple, ast.List)) and len(target.elts) == 2:
+            inner, _ = _strip_iter(base)
+            if is_table(inner, sn):
+                bind(target.elts[0], frozenset({0, 1}), roles)
+                bind(target.elts[1], "pair", roles)
+        elif wrap == "zip" and isinstance(target, (ast.Tuple, ast.List)) and len(target.elts) == len(base.args):
+            if any(is_table(_strip_iter(a)[0], sn) for a in base.args):
+                for t, a in zip(target.elts, base.args):
+                    bind(t, "pair" if is_table(_strip_iter(a)[0], sn) else frozenset({0, 1}), roles)
+        elif is_table(base, sn):
+            bind(target, "pair", roles)
+        return roles
+
+    def components(e, roles):
+        used = set()
+
+        def go(n):
+            if isinstance(n, ast.Subscript) and isinstance(n.value, ast.Name) and roles.get(n.value.id) == "pair" \
+                    and isinstance(n.slice, ast.Constant) and n.slice.value in (0, 1, -1, -2):
+                used.add(n.slice.value % 2)
+                return
+            if isinstance(n, ast.Name) and n.id in roles:
+                used.update({0, 1} if roles[n.id] == "pair" else roles[n.id])
+                return
+            for c in ast.iter_child_nodes(n):
+                go(c)
+
+        go(e)
+        return used
+
+    def scan(region, roles, fn, depth=0):
+        """membership tests in `region` (list of nodes) under the roles; helper calls that receive pair components are followed once."""
+        found = False
+        fn_node = fn.node
+        defs = single_assignments(fn_node)
+        for top in region:
+            for n in ast.walk(top):
+                if isinstance(n, ast.Compare) and any(isinstance(o, (ast.In, ast.NotIn)) for o in n.ops):
+                    used = components(expanded(n, fn_node, defs), roles)
+                    if used:
+                        sites.append((n.lineno, used))
+                        found = True
+        if found or depth > 0:
+            return found
+        for top in region:
+            for n in ast.walk(top):
+                if isinstance(n, ast.Call) and isinstance(n.func, ast.Attribute) and isinstance(n.func.value, ast.Name) and n.func.value.id == fn.self_name:
+                    m = K.lookup(n.func.attr)
+                    if not (m and m[1] == "method"):
+                        continue
+                    callee = m[2]
+                    prm = callee.params[1:] if callee.kind != "staticmethod" else callee.params
+                    sub = {}
+                    for name, arg in list(zip(prm, n.args)) + [(kw.arg, kw.value) for kw in n.keywords if kw.arg]:
+                        if isinstance(arg, ast.Name) and roles.get(arg.id) == "pair":
+                            sub[name] = "pair"
+                        else:
+                            c = components(arg, roles)
+                            if c:
+                                sub[name] = frozenset(c)
+                    if sub and scan(callee.node.body, sub, callee, depth + 1):
+                        found = True
+        return found
+
+    for fn in methods:
+        sn = fn.self_name
+        if sn is None:
+            continue
+        defs = single_assignments(fn.node)
+        for n in ast.walk(fn.node):
+            if isinstance(n, (ast.ListComp, ast.SetComp, ast.GeneratorExp, ast.DictComp)):
+                roles: dict = {}
+                for g in n.generators:
+                    roles.update(loop_roles(g.target, g.iter, sn, fn.node, defs))
+                if roles:
+                    region = [n.key, n.value] if isinstance(n, ast.DictComp) else [n.elt]
+                    scan(region + [c for g in n.generators for c in g.ifs], roles, fn)
+            elif isinstance(n, ast.For):
+                roles = loop_roles(n.target, n.iter, sn, fn.node, defs)
+                if roles:
+                    scan(n.body, roles, fn)
+    return sites
+
+
 # --------------------------------------------------------------------------------------------- (b) association kinds
 
 def _names(t):
@@ -494,6 +671,86 @@ def silent_kinds(p, fn_node, vparam, valid_param, kinds, valid_kinds):
                 silent.add(kind)
                 break
     return sorted(silent), len(outs)
+
+
+# --------------------------------------------------------------------------------------------- shared mutable objects
+
+_FRESH_CALLS = {"list", "dict", "set", "tuple", "sorted", "deepcopy", "copy", "frozenset", "reversed"}
+
+
+def objects_of(e, depth=0):
+    """The objects an expression (locals substituted; local containers as merged literals) may evaluate to: element look-ups into
+    literals / merges are resolved (`{**a, "k": v}["k"]` is v), conditional expressions fork, copies stay as they are."""
+    if depth > 12:
+        return [e]
+    if isinstance(e, ast.IfExp):
+        return objects_of(e.body, depth + 1) + objects_of(e.orelse, depth + 1)
+    if isinstance(e, ast.BoolOp):
+        return [o for v in e.values for o in objects_of(v, depth + 1)]
+    key = None
+    if isinstance(e, ast.Subscript):
+        base, key = e.value, e.slice
+    elif isinstance(e, ast.Call) and isinstance(e.func, ast.Attribute) and e.func.attr in ("get", "setdefault", "pop") and e.args:
+        base, key = e.func.value, e.args[0]
+    if key is None:
+        return [e]
+    out = []
+    for b in objects_of(base, depth + 1):
+        if isinstance(b, ast.Dict):
+            for k, v in reversed(list(zip(b.keys, b.values))):
+                if k is None:
+                    if isinstance(v, ast.Dict) or not isinstance(v, (ast.Constant,)):
+                        out += objects_of(ast.Subscript(value=v, slice=key, ctx=ast.Load()), depth + 1)
+                    continue
+                if key_of(k) == key_of(key):
+                    out += objects_of(v, depth + 1)
+                    break  # the latest entry under this key
+                if isinstance(k, ast.Constant) and isinstance(key, ast.Constant):
+                    continue
+                out += objects_of(v, depth + 1)  # may be the same key
+        else:
+            out.append(ast.Subscript(value=b, slice=key, ctx=ast.Load()))
+        if isinstance(e, ast.Call) and len(e.args) > 1:
+            out += objects_of(e.args[1], depth + 1)
+    return out
+
+
+def shared_root(p, mod, cls, o, params=()):
+    """Name of the module-level / class-level MUTABLE container the object `o` is (or is an element of), else None."""
+    def mutable(v):
+        if isinstance(v, (ast.List, ast.Dict, ast.Set, ast.ListComp, ast.DictComp, ast.SetComp)):
+            return True
+        return isinstance(v, ast.Call) and (getattr(v.func, "id", None) or getattr(v.func, "attr", None)) in ("list", "dict", "set", "defaultdict", "OrderedDict", "deque")
+
+    while True:
+        if isinstance(o, ast.Call):
+            f = o.func
+            nm = f.attr if isinstance(f, ast.Attribute) else getattr(f, "id", None)
+            if nm in _FRESH_CALLS or (isinstance(f, ast.Attribute) and nm in ("copy", "keys", "values", "items")):
+                return None
+            return None
+        if isinstance(o, ast.Subscript):
+            o = o.value
+            continue
+        break
+    if isinstance(o, ast.Name) and o.id not in params and "§" not in o.id:
+        r = p.resolve_name(mod, o.id)
+        if r and r[0] == "assign" and mutable(r[1][1]):
+            return o.id
+    if isinstance(o, ast.Attribute) and isinstance(o.value, ast.Name):
+        owner = None
+        if cls is not None and o.value.id in ("self", "cls"):
+            owner = cls
+        else:
+            r = p.resolve_name(mod, o.value.id)
+            if r and r[0] == "class":
+                owner = r[1]
+        if owner is not None:
+            for c in owner.mro:
+                if not isinstance(c, str) and o.attr in c.class_assigns:
+                    v = c.class_assigns[o.attr][0]
+                    return f"{c.name}.{o.attr}" if v is not None and mutable(v) else None
+    return None
 
 
 # --------------------------------------------------------------------------------------------- merged mappings
